@@ -7,7 +7,7 @@
    to the proxy for it.  Every statement is over all finite sequences. *)
 From Coq Require Import String Ascii.
 From Coq Require Import List ZArith Bool.
-From Verif Require Import C07.Model C07.Spec C07.Proofs.
+From Verif Require Import C07.Model C07.Spec C07.Proofs C07.SessionProofs.
 Import ListNotations.
 Open Scope Z_scope.
 
@@ -221,6 +221,81 @@ Theorem C07_encoding_fields : forall st body h,
 Proof. intros. split; reflexivity. Qed.
 Print Assumptions C07_encoding_fields.
 
+(* ------------------------------------------------------------------ sessions *)
+
+(* Producers (processors, remedies, authentication plugins) keep objects across
+   transactions: the store [st] gives the action value each producer stands for
+   when the session starts, a transaction names the producers that fire.
+   The combination is a function of the VALUES of one transaction's actions:
+   it reads the producers and never writes them.  In this model that is true
+   by construction (Gallina values cannot alias; [txn_req] returns the store
+   it was given), so the two statements below are trivial.  They are stated
+   because they are the specification the session suites (sess_req,
+   sess_resp) check against the implementation, where it is NOT automatic: a
+   fold that merges into a map it was handed (the accumulator is the first
+   producer's own action) satisfies every statement above on fresh inputs and
+   breaks this one. *)
+Theorem C07_fold_is_a_function_of_values :
+  (forall st st' ids, resolve_req st ids = resolve_req st' ids ->
+     fst (txn_req st ids) = fst (txn_req st' ids)) /\
+  (forall st ids, fst (txn_req st ids) = fold_req (resolve_req st ids) /\
+                  snd (txn_req st ids) = st) /\
+  (forall st st' ids, resolve_resp st ids = resolve_resp st' ids ->
+     fst (txn_resp st ids) = fst (txn_resp st' ids)) /\
+  (forall st ids, fst (txn_resp st ids) = fold_resp (resolve_resp st ids) /\
+                  snd (txn_resp st ids) = st).
+Proof.
+  repeat split; intros; unfold txn_req, txn_resp; simpl; congruence.
+Qed.
+Print Assumptions C07_fold_is_a_function_of_values.
+
+(* the result of the k-th transaction of any session is the fold of that
+   transaction's action values as they were when the session started, whatever
+   transactions came before (and after); the producers' values are unchanged
+   at the end *)
+Theorem C07_sessions_independent :
+  (forall st pre t post,
+     nth_error (fst (session_req st (pre ++ t :: post))) (length pre)
+       = Some (fold_req (resolve_req st t)) /\
+     snd (session_req st (pre ++ t :: post)) = st) /\
+  (forall st pre t post,
+     nth_error (fst (session_resp st (pre ++ t :: post))) (length pre)
+       = Some (fold_resp (resolve_resp st t)) /\
+     snd (session_resp st (pre ++ t :: post)) = st).
+Proof.
+  split; intros st pre t post.
+  - rewrite session_req_spec. simpl. split; [|reflexivity].
+    apply (nth_error_map_some _ _ (fun t0 => fold_req (resolve_req st t0))). rewrite nth_error_app2 by apply le_n.
+    rewrite Nat.sub_diag. reflexivity.
+  - rewrite session_resp_spec. simpl. split; [|reflexivity].
+    apply (nth_error_map_some _ _ (fun t0 => fold_resp (resolve_resp st t0))). rewrite nth_error_app2 by apply le_n.
+    rewrite Nat.sub_diag. reflexivity.
+Qed.
+Print Assumptions C07_sessions_independent.
+
+(* Reuse of an action STRUCT (not only of its header map) across transactions:
+   [session_req_ip] models the code as it is, where the accumulator of the fold
+   is the first producer's struct and ModifyRequest x ModifyHeaders assigns its
+   HeadersToSet.  (1) the result of a single fold is still the value-level
+   fold; (2) a session in which no fold starts (no-ops dropped) with
+   ModifyRequest, ModifyHeaders behaves as the value semantics: every result is
+   the fold of the transaction's start values and the producers are unchanged.
+   The side condition is decidable ([inplace_fires], what the harness counts as
+   "struct-updated-in-place"); without it independence fails for a reused
+   struct (example below).  No producer of the tree hands the same struct to
+   two transactions, every construction site builds one per call; the response
+   table has no such cell, there struct reuse is the value semantics. *)
+Theorem C07_struct_reuse_independent_outside_inplace :
+  (forall st ids, fst (txn_req_ip st ids) = fold_req (resolve_req st ids)) /\
+  (forall st ts,
+     Forall (fun t => inplace_fires (resolve_req st t) = false) ts ->
+     session_req_ip st ts = session_req st ts).
+Proof.
+  split; [exact txn_req_ip_result|].
+  intros st ts F. apply session_req_ip_pure. exact F.
+Qed.
+Print Assumptions C07_struct_reuse_independent_outside_inplace.
+
 (* ------------------------------------------------------------------ non-vacuity *)
 
 Definition kA : list Z := [97].            (* "a" *)
@@ -268,3 +343,27 @@ Example C07_encoding_example :
   dump [(kA, v1); (kB, v2)] = [97; 58; 49; 10; 98; 58; 50; 10] /\
   dump [([97; 58; 98], [99])] = dump [([97], [98; 58; 99])].
 Proof. vm_compute. auto. Qed.
+
+(* a session over three producers: the auth producer (0) is combined with a
+   per-request edit (1) in the first transaction and fires alone in the second:
+   the second result carries the auth producer's own edits only *)
+Example C07_session_example :
+  let st := [RModRequest [(kA, v1); (kB, v1)] [] [] [] []; RModHeaders [(kB, v2)];
+             RGenRequest [(kA, v3)] [kB] []] in
+  session_req st [[0; 1]; [0]; [2; 0; 1]]%nat =
+    ([RModRequest [(kA, v1); (kB, v2)] [] [] [] [];
+      RModRequest [(kA, v1); (kB, v1)] [] [] [] [];
+      RModRequest [(kA, v1); (kB, v2)] [] [] [] []], st) /\
+  (* struct reuse: the side condition holds of [2;0;1] and [0], and the model
+     of the code agrees with the value semantics there *)
+  Forall (fun t => inplace_fires (resolve_req st t) = false) [[2; 0; 1]; [0]]%nat /\
+  session_req_ip st [[2; 0; 1]; [0]]%nat = session_req st [[2; 0; 1]; [0]]%nat /\
+  (* ... and it is needed: with the struct of producer 0 reused, [0;1] leaves
+     its merged headers in that struct and the next transaction sends b=2 *)
+  inplace_fires (resolve_req st [0; 1]%nat) = true /\
+  session_req_ip st [[0; 1]; [0]]%nat =
+    ([RModRequest [(kA, v1); (kB, v2)] [] [] [] [];
+      RModRequest [(kA, v1); (kB, v2)] [] [] [] []],
+     [RModRequest [(kA, v1); (kB, v2)] [] [] [] []; RModHeaders [(kB, v2)];
+      RGenRequest [(kA, v3)] [kB] []]).
+Proof. vm_compute. repeat split; try reflexivity; repeat constructor. Qed.
